@@ -215,7 +215,8 @@ func (r *Runner) execDecEnum(op *OpSpec, st *Step) *Rec {
 	sd := r.C.Get(op.Type)
 	rt := corpus.Types[op.Type]
 	var tr model.Tracker
-	base := model.GenValue(r.C, sd, op.VSeed, model.VOpt{Budget: op.Budget, Foreign: op.Foreign}).AppendT(nil, &tr)
+	wv := model.GenValue(r.C, sd, op.VSeed, model.VOpt{Budget: op.Budget, Foreign: op.Foreign})
+	base := wv.AppendT(nil, &tr)
 	res := &Rec{Cls: "ok", Tag: "decenum/" + sd.Shape(), N: len(base)}
 	if len(base) > 600 {
 		// too long to enumerate: seeded sample of positions
@@ -240,6 +241,16 @@ func (r *Runner) execDecEnum(op *OpSpec, st *Step) *Rec {
 		r.st(st).events["truncated-input-as-window-with-spare-capacity"]++
 		one := r.decodeOnce(op, st, sd, m, g.placeWithTail(base[:k], base[k:]), reflect.New(rt))
 		res.Evals += one.Evals
+		if k%2 == 1 && !op.Foreign {
+			// and into a destination that already holds the whole value (a reused object: its slices and maps have
+			// exactly the room the message announces)
+			dst := reflect.New(rt)
+			model.Realise(r.C, sd, wv, dst.Elem())
+			r.st(st).events["destination-already-holds-the-message's-value"]++
+			m2 := &message{fault: "prefix", bytes: base[:k], clean: base, desc: "prefix " + strconv.Itoa(k) + " of " + strconv.Itoa(len(base)) + " into a destination that holds the whole value", changed: true}
+			one = r.decodeOnce(op, st, sd, m2, g.place(base[:k]), dst)
+			res.Evals += one.Evals
+		}
 	}
 	mut := make([]byte, len(base))
 	for k := 0; k < len(base); k++ {
